@@ -257,18 +257,23 @@ def _rq_eq_fresh(r):
 def _rq_op(r, o):
     k = o[0] if o else 7
     v = o[1] if len(o) > 1 else 0
-    if k == 0:
-        r.ccsds_version = v
-    elif k == 1:
-        r.tc_packet_id.ptype = _ptype(v)
-    elif k == 2:
-        r.tc_packet_id.sec_header_flag = _b(v)
-    elif k == 3:
-        r.tc_packet_id.apid = v
-    elif k == 4:
-        r.tc_psc.seq_flags = _flags(v)
-    elif k == 5:
-        r.tc_psc.seq_count = v
+    try:
+        if k == 0:
+            r.ccsds_version = v
+        elif k == 1:
+            r.tc_packet_id.ptype = _ptype(v)
+        elif k == 2:
+            r.tc_packet_id.sec_header_flag = _b(v)
+        elif k == 3:
+            r.tc_packet_id.apid = v
+        elif k == 4:
+            r.tc_psc.seq_flags = _flags(v)
+        elif k == 5:
+            r.tc_psc.seq_count = v
+    except BaseException as e:  # noqa
+        # an assignment the library refuses is one row of the history ([1, class] + what the object shows afterwards;
+        # the unchanged library never refuses one, so its rows keep their format), not the end of the case
+        return _err_row(e) + _rq_fields(r) + [r.as_u32(), hash(r)]
     if k == 6:
         return _row(r.pack)
     if k == 8:
@@ -278,10 +283,13 @@ def _rq_op(r, o):
 
 def _pfe_op(f, o):
     k = o[0] if o else 4
-    if k == 0:
-        f.val = o[1]
-    elif k == 1:
-        f.pfc = o[1]
+    try:
+        if k == 0:
+            f.val = o[1]
+        elif k == 1:
+            f.pfc = o[1]
+    except BaseException as e:  # noqa
+        return _err_row(e) + [f.pfc, f.val]      # a refused assignment: one row, the history goes on
     if k == 2:
         return _row(f.pack)
     if k == 3:
@@ -1350,6 +1358,10 @@ def oracle(case, ires, sres):
             return None
         n = pfc // 8
         if op == 710:
+            if err and code in (1, 2, 3) and not 0 <= val < 256 ** n:
+                # a value the declared width cannot hold is never encoded (pack() refuses it); refusing it when the field
+                # is built, with ValueError, is the same refusal earlier
+                return None
             if err or ires[1] != [pfc, val, n]:
                 return ("C15/PacketFieldEnum/fields", "%s -> %s" % (a[0], ires))
             return None
@@ -1640,11 +1652,23 @@ def oracle_rq_history(a, ires):
     cur = list(l)
     for n, (o, row) in enumerate(zip(a[2:], ires[1:])):
         k = o[0] if o else 7
+        what = "path %d, start %s, operations %s" % (kind, l, a[2:3 + n])
         if 0 <= k <= 5:
+            if row[0] == 1:
+                # the assignment itself was refused (row = [1, class] + fields, as_u32, hash afterwards): fine for a value
+                # the field cannot hold, with ValueError (TypeError tolerated for the enum / flag fields), object unchanged
+                u32 = (((cur[0] * 2 + cur[1]) * 2 + cur[2]) * 2048 + cur[3]) * 65536 + cur[4] * 16384 + cur[5]
+                if 0 <= o[1] < RQ_RANGES[k]:
+                    return ("C15/RequestId.attributes/valid-refused", "%s: an in-range assignment was refused: %s" % (what, row[:2]))
+                if row[1] not in ((1, 2, 3) if k in (0, 3, 5) else (1, 2, 3, 20)):
+                    return ("C15/RequestId.attributes/refusal-class", "%s: out-of-range value refused with %s instead of ValueError" % (
+                        what, core.ERR_NAMES.get(row[1], row[1])))
+                if row[2:8] != cur or (reqid_ok(cur) and row[8:] != [u32, u32]):
+                    return ("C15/RequestId.attributes/refusal-changed-object", "%s: refused, yet the object reports %s, before %s" % (what, row[2:], cur))
+                continue
             cur[k] = o[1]
         if not reqid_ok(cur):
             continue
-        what = "path %d, start %s, operations %s" % (kind, l, a[2:3 + n])
         exp = reqid_layout(cur)
         u32 = int.from_bytes(bytes(exp), "big")
         if k == 6:
@@ -1666,11 +1690,21 @@ def oracle_pfe_history(a, ires):
         return ("C15/PacketFieldEnum/valid-refused", "%s -> %s" % (a[0], ires))
     for n, (o, row) in enumerate(zip(a[1:], ires[1:])):
         k = o[0] if o else 4
+        what = "field %s after %s" % (a[0], a[1:2 + n])
+        if k in (0, 1) and row[0] == 1:
+            # the assignment itself was refused (row = [1, class, pfc, val afterwards]).  Fine when the field could not be
+            # packed with the new value (width not 8/16/32/64, value outside the width): ValueError, object unchanged
+            npfc, nval = (pfc, o[1]) if k == 0 else (o[1], val)
+            if npfc in (8, 16, 32, 64) and 0 <= nval < 2 ** npfc:
+                return ("C15/PacketFieldEnum.attributes/valid-refused", "%s: a representable (pfc %d, val %d) was refused: %s" % (what, npfc, nval, row))
+            if row[1] not in (1, 2, 3) or row[2:] != [pfc, val]:
+                return ("C15/PacketFieldEnum.attributes/refusal", "%s: refused with %s, the field reports %s afterwards (before: pfc %d, val %d)" % (
+                    what, core.ERR_NAMES.get(row[1], row[1]), row[2:], pfc, val))
+            continue
         if k == 0:
             val = o[1]
         elif k == 1:
             pfc = o[1]
-        what = "field %s after %s" % (a[0], a[1:2 + n])
         if pfc not in (8, 16, 32, 64):
             if k in (2, 3) and row[0] != 1:
                 return ("C15/PacketFieldEnum.attributes/non-octet-width", "%s: width %d packed / measured: %s" % (what, pfc, row))
@@ -1686,6 +1720,8 @@ def oracle_pfe_history(a, ires):
             if row != [0, w]:
                 return ("C15/PacketFieldEnum.attributes/len", "%s: len() = %s" % (what, row))
         elif k == 5:
+            if not 0 <= val < 256 ** w and row[0] == 1 and row[1] in (1, 2, 3):
+                continue    # no fresh field can be built with a value the width cannot hold (refused at construction): nothing to compare
             if row != [0, 1, 1]:
                 return ("C15/PacketFieldEnum.__eq__/after-assignment", "%s: not equal to a fresh field (pfc %d, val %d): %s" % (what, pfc, val, row))
         elif row != [0, pfc, val]:
@@ -1709,8 +1745,11 @@ def oracle_vp_history(a, ires):
         what = "parameters %s after %s" % (a[:4], [x[:12] for x in a[4:5 + n]])
         if k <= 5 and row[0] == 1 and len(row) == 2 and len(rows[pos:pos + 4]) >= 1 and (pos + 1 >= len(rows) or True):
             # a refused assignment (bad request ID / field width, or no object to edit): nothing may have changed
-            refused_ok = (k == 0 and not reqid_ok(o[1:7])) or (k == 1 and o[1] and not o[2] in (8, 16, 32, 64)) or \
-                (k == 2 and o[1] and not o[2] in (8, 16, 32, 64)) or (k == 3 and not step[0]) or (k in (4, 5) and not code[0])
+            #   (also a step ID / failure code value its declared width cannot hold: pack() would refuse it, an earlier
+            #   refusal - at construction of the field or by a validating .val setter - is the same refusal)
+            refused_ok = (k == 0 and not reqid_ok(o[1:7])) or (k == 1 and o[1] and not pfe_ok([1, o[2], o[3]])) or \
+                (k == 2 and o[1] and not pfe_ok([1, o[2], o[3]])) or (k == 3 and not (step[0] and pfe_ok([1, step[1], o[1]]))) or \
+                (k == 4 and not code[0]) or (k == 5 and not (code[0] and pfe_ok([1, code[1], o[1]])))
             if refused_ok:
                 pos += 1
                 continue
@@ -1785,6 +1824,14 @@ def oracle_s1_history(a, ires):
         what = "path %d, report %s, operations %s" % (kind, a[:6], a[7:8 + n])
         if op == 3 and not reqid_ok(o[1:7]):
             return None
+        if op in (4, 5) and row[0] == 1:
+            # the setter refused the assignment at once: fine for a value outside the field's range (today: stored, and
+            # refused by the next pack), with ValueError; nothing is assigned - the following rows are judged against the
+            # old APID / count
+            if 0 <= o[1] < (16384 if op == 4 else 2048) or row[1] not in (1, 2, 3):
+                return ("C15/Service1Tm.history/valid-refused", "%s: raised %s" % (what, row))
+            pos += 1
+            continue
         if op == 4 and row[0] == 0:
             seq = o[1]
         elif op == 5 and row[0] == 0:
